@@ -82,8 +82,14 @@ pub fn scenario(seed: u64, k: u64, out: &Out) {
     let (now, base_ts) = time_base();
     let params = gen_params(&mut rng, seed, base_ts);
     let len = gen_len(&mut rng);
-    let ccfg = gen_ccfg(&mut rng);
-    let main = Chain::generate(params.clone(), len);
+    let mut ccfg = gen_ccfg(&mut rng);
+    // the chain root commitment starts at epoch E > 0 in a third of the histories: the headers up to the first block of
+    // epoch E honestly carry no chain root (short epochs put the boundary among the first blocks, where the last-N
+    // section, the samples and sometimes the tip itself lie)
+    if rng.chance(1, 3) {
+        ccfg.mmr_epoch = rng.range(1, 4);
+    }
+    let main = Chain::generate_with_mmr_epoch(params.clone(), len, ccfg.mmr_epoch);
     let mut w = World::new(main, ccfg.clone(), seed, now);
     w.timer_fast = rng.chance(3, 4);
     let with_scripts = rng.chance(1, 2);
@@ -104,7 +110,7 @@ pub fn scenario(seed: u64, k: u64, out: &Out) {
         w.add_peer(ci, true);
     }
     let desc = json!({"seed": seed, "scenario": k, "pow": format!("{:?}", params.pow), "len": len, "epoch_len": [params.epoch_len.0, params.epoch_len.1],
-        "diff_mode": format!("{:?}", params.diff_mode), "last_n": ccfg.last_n, "peers": npeers, "scripts": with_scripts, "fast": w.timer_fast});
+        "diff_mode": format!("{:?}", params.diff_mode), "last_n": ccfg.last_n, "peers": npeers, "scripts": with_scripts, "fast": w.timer_fast, "mmr_activated_epoch": ccfg.mmr_epoch});
     let mut mon = Mon { out, msgs: 0, req_start: Default::default() };
     let mut phases: Vec<String> = vec![];
     w.connect_all();
@@ -117,8 +123,8 @@ pub fn scenario(seed: u64, k: u64, out: &Out) {
         let r = w.run_until(&mut mon, R_CONVERGE, tip_ok);
         out.eval(1);
         let shape = format!(
-            "len{}|n{}|peers{}|{}|{:?}|{:?}",
-            bucket(len), ccfg.last_n, npeers, phases.last().cloned().unwrap_or_else(|| "init".into()), params.pow, params.diff_mode
+            "len{}|n{}|peers{}|{}|{:?}|{:?}|mmr{}",
+            bucket(len), ccfg.last_n, npeers, phases.last().cloned().unwrap_or_else(|| "init".into()), params.pow, params.diff_mode, if ccfg.mmr_epoch == 0 { "0" } else { ">0" }
         );
         out.cell(&shape);
         if w.bans.len() > bans0 {
